@@ -102,7 +102,40 @@ def make_iso(eng, labels, n=2, ads_fail=(), extra_fields=None, cls=None, frame=F
     iso.p_interpolator = Sentinel('cached_p_interpolator')
     for k, v in (extra_fields or {}).items():
         setattr(iso, k, v)
+    # every other slot the constructors of the class leave at None (read mechanically from the `self.x = None` statements of the
+    # `__init__` methods in the class hierarchy, on every run): an instance made here is in the state `__init__` would have left it in,
+    # also when a change adds such a slot -- whether the code then keeps it consistent is what the history clauses decide
+    for k in _none_slots(cls):
+        if not hasattr(iso, k):
+            setattr(iso, k, None)
     return iso
+
+
+_NONE_SLOTS = {}
+
+
+def _none_slots(cls):
+    if cls in _NONE_SLOTS:
+        return _NONE_SLOTS[cls]
+    import ast
+    import inspect
+    import textwrap
+    out = []
+    for klass in cls.__mro__:
+        init = vars(klass).get('__init__')
+        if init is None or klass is object:
+            continue
+        try:
+            tree = ast.parse(textwrap.dedent(inspect.getsource(init)))
+        except (OSError, TypeError, SyntaxError):
+            continue
+        for node in ast.walk(tree):
+            if isinstance(node, ast.Assign) and isinstance(node.value, ast.Constant) and node.value.value is None:
+                for tgt in node.targets:
+                    if isinstance(tgt, ast.Attribute) and isinstance(tgt.value, ast.Name) and tgt.value.id == 'self' and tgt.attr not in out:
+                        out.append(tgt.attr)
+    _NONE_SLOTS[cls] = out
+    return out
 
 
 def snapshot(iso):
